@@ -121,7 +121,7 @@ func init() { Registry["C17"] = c17 }
 func c17(c *core.Ctx) string {
 	c.Rule("R-C17-1", "LimitListener.Accept typestate: the inner Listener.Accept is reached only holding a semaphore slot (acquire succeeded, or the listener context was found alive after the acquire); every error exit has released exactly once iff a slot was held; the success exit has not released and returns the wrapper whose release func is the listener's release; acquire reports success iff the semaphore acquire returned nil; acquire and release have the same unit weight")
 	c.Rule("R-C17-2", "release exactly once per connection: the wrapper's Close runs the release func through its own sync.Once on every exit; the release field is referenced nowhere else (no direct call, no reassignment)")
-	c.Rule("R-C17-3", "every serve loop is capped: every Serve/ServeTLS/ListenAndServe* call (net/http and http3) in httpserver serves a listener that flows from NewLimitListener sized by Spec.MaxConnections and recorded in runtime.limitListener; reload forwards the new spec's MaxConnections to SetMaxConnection whenever a listener exists (or restarts with the new spec); SetMaxConnection forwards to Semaphore.SetMaxCount")
+	c.Rule("R-C17-3", "every serve loop is capped: every Serve/ServeTLS/ListenAndServe* call (net/http and http3) in httpserver serves a listener that flows from NewLimitListener sized by Spec.MaxConnections and recorded in runtime.limitListener; reload forwards the new spec's MaxConnections to SetMaxConnection whenever a listener exists (or restarts with the new spec); SetMaxConnection forwards to Semaphore.SetMaxCount; the restart decision neutralises Spec.MaxConnections on both compared copies (a change of maxConnections alone is applied to the live listener, never by a restart that drops established connections)")
 	c.Rule("R-C17-4", "resize bookkeeping: SetMaxCount reads the old and stores the new realCapacity in one critical section of the semaphore's mutex, does not modify the new value afterwards, releases (new-old) only when new>=old and acquires (old-new) only when old>=new, and every exit with new>old has released / new<old has acquired; NewSem pre-acquires (weighted size - capacity) and records the capacity")
 	c.Rule("R-C17-5", "MQTT cap: every insertion into Broker.clients happens holding the broker's write lock and, within the same critical section, after establishing: key already present (takeover, size unchanged) or cap disabled (MaxAllowedConnection<=0) or len(clients) < MaxAllowedConnection; the edge that found the table full returns without inserting after writing a CONNACK with ErrRefusedServerUnavailable; no exit keeps the lock")
 	c.NotDecided = []string{
@@ -139,6 +139,7 @@ func c17(c *core.Ctx) string {
 	c17Conn(c)
 	c17Serve(c)
 	c17Reload(c)
+	c17RestartDecision(c)
 	c17Resize(c)
 	c17NewSem(c)
 	c17MQTT(c)
